@@ -370,7 +370,14 @@ def for_indexes(coordinates, side_length, x_offset, y_offset, flipped, indexes, 
     base = np.asarray(c.triangles, float)
     ids = _Ids(1e-7 * side_length)
     want = sorted(ids.tris(base[indexes]))
-    for label, s in (("CoordinateArrayTriangles", c), ("ArrayTriangles", a)):
+    # the vertex-array representation with its vertices in ARBITRARY order (a cyclic shift of the rows: a permutation that is not its
+    # own inverse), indices renumbered accordingly -- the same triangles; and a set straight from for_limits_and_scale
+    V, I = np.asarray(c.vertices, float), np.asarray(c.indices)
+    k = 1 + len(indexes) % max(1, len(V) - 1) if len(V) > 2 else 0
+    perm = np.roll(np.arange(len(V)), k)                      # new row j holds old vertex perm[j]
+    inv = np.empty(len(V), dtype=int); inv[perm] = np.arange(len(V))
+    shuffled = ArrayTriangles(indices=inv[I], vertices=V[perm])
+    for label, s in (("CoordinateArrayTriangles", c), ("ArrayTriangles", a), ("ArrayTriangles with cyclically shifted vertex rows", shuffled)):
         sel = s.for_indexes(indexes.copy())
         got = np.asarray(sel.triangles, float)
         if got.shape != (len(indexes), 3, 2) or sorted(ids.tris(got)) != want:
@@ -409,13 +416,24 @@ def _shape_and_reference(aa, kind, px, py, r, rs):
 
 def _gen_contain(rng, tier):
     for coords, side, xo, yo, flipped in _coord_sets(rng, tier):
+        # a circle whose centre sits in a corner of its triangle (3% .. 10% of the way from a vertex to the centroid) with a radius
+        # between half the side and the centroid distance: the containing triangle must be reported although its centroid is
+        # outside the circle
+        tri = _coordinate_triangles(coords, side, xo, yo, flipped)[rng.randrange(len(coords))]
+        cen = tri.mean(axis=0)
+        v = tri[rng.randrange(3)]
+        q = v + (cen - v) * rng.choice([0.03, 0.06, 0.1])
+        yield {"coordinates": coords, "side_length": side, "x_offset": xo, "y_offset": yo, "flipped": flipped, "kind": "circle",
+               "px": float(q[0]), "py": float(q[1]), "r": rng.choice([0.52, 0.54, 0.56]) * side, "seed": rng.randrange(10 ** 6)}
         for kind in ("point", "circle", "square", "triangle", "polygon"):
             # aim at (or near) one of the triangles so that hits are frequent
             k = rng.randrange(len(coords))
             cx, cy = coords[k]
             yield {"coordinates": coords, "side_length": side, "x_offset": xo, "y_offset": yo, "flipped": flipped, "kind": kind,
                    "px": 0.5 * side * cx + xo + rng.uniform(-0.6, 0.6) * side, "py": H * side * cy + yo + rng.uniform(-0.6, 0.6) * side,
-                   "r": rng.choice([0.05, 0.3, 1.5]) * side, "seed": rng.randrange(10 ** 6)}
+                   # radii incl. the band between half the side and side/sqrt(3) (larger than the distance to the nearest edge for
+                   # every interior point, smaller than the distance from a corner to the centroid)
+                   "r": rng.choice([0.05, 0.3, 1.5, 0.52, 0.55, 0.57]) * side, "seed": rng.randrange(10 ** 6)}
 
 
 @bounded("C20", "containing-indices", gen=_gen_contain,
